@@ -25,7 +25,7 @@ class Interner:
         self.guards = {}
 
     def ident(self, s):
-        m = re.fullmatch(PFX + r"GUARD_(\d+)", s)
+        m = re.fullmatch(PFX + r"GUARD_(\d+)(_[A-Za-z_]+)?", s)
         if m:
             return GUARD_BASE + self.guards.setdefault(s, len(self.guards))
         if s in EVCODE:
